@@ -43,7 +43,10 @@ class Frag:
         self.atoms = atoms            # {python source: (lean term, 'Int'|'Bool')}; parameters are the lean terms that are identifiers
         self.outputs = outputs        # 'return' or list of python sources (mutable atoms / locals)
         self.mutable = list(mutable)
-        self.ignore = [re.compile(p) for p in ignore]
+        # statements that are part of the fragment but carry no decision logic: (regex, number of statements it has to match);
+        # a statement that is gone (or has multiplied) makes the fragment untranslatable rather than silently different
+        self.ignore = [(re.compile(p if isinstance(p, str) else p[0]), 1 if isinstance(p, str) else p[1]) for p in ignore]
+        self.ignore_hits = {}
         self.inline = list(inline)
         self.select = select          # function(list of stmts) -> list of stmts
         self.unroll = unroll or {}    # {loop var: [python constant sources]}
@@ -125,6 +128,7 @@ class Translator:
         self.f = frag
         self.tree = module_tree
         self.helpers = {}      # inline helper name -> lean def text
+        self.hits = {}         # ignore pattern -> set of (line, source) of the statements it matched
         self.fresh = 0
         self.raises = False
 
@@ -306,7 +310,11 @@ class Translator:
 
     def ignored(self, stmt):
         s = _src(stmt)
-        return any(p.search(s) for p in self.f.ignore)
+        for p, _n in self.f.ignore:
+            if p.search(s):
+                self.hits.setdefault(p.pattern, set()).add((getattr(stmt, 'lineno', 0), s))
+                return True
+        return False
 
     def newvar(self, base):
         self.fresh += 1
@@ -375,6 +383,8 @@ class Translator:
                 raise Untranslatable('continue outside an unrolled loop')
             return cont(env)
         if isinstance(s, ast.Expr) and isinstance(s.value, ast.Yield) and self.f.yield_value is not None:
+            if not (rest and isinstance(rest[0], ast.Break)):
+                raise Untranslatable('`yield` is not followed by `break` (the scan is expected to stop at the structure it hands out)')
             return self.f.yield_value
         if isinstance(s, ast.If):
             c, tc = self.expr(s.test, env)
@@ -436,6 +446,10 @@ class Translator:
         body, ty = self.block(stmts, dict(self.f.init), None, self.f.outputs)
         if ty == 'RAISE':
             raise Untranslatable('fragment always raises')
+        for p, n in self.f.ignore:
+            got = len(self.hits.get(p.pattern, ()))
+            if got != n:
+                raise Untranslatable('the fragment is expected to contain %d statement(s) matching /%s/, found %d' % (n, p.pattern, got))
         if self.raises:
             # wrap: a value v becomes `some v`; done textually on a marker to keep the code simple
             raise Untranslatable('raise is only supported through `raise_as`')
